@@ -325,3 +325,235 @@ theorem parseUnitLine_extends (O : Oracles) (fn : Bytes) (ln : Nat) (units : Uni
   · exact unitFields_extends _ _ _ _ _ _
 
 end Fmt
+
+/-! ### Shifting line numbers -/
+namespace Fmt
+open Spec.Format
+
+/-- add `d` to the line number a record reports -/
+def Rec.bump (d : Nat) : Rec → Rec
+  | .result r => .result { r with line := r.line + d }
+  | .err e => .err { e with line := e.line + d }
+  | .unit u => .unit { u with line := u.line + d }
+
+def UnitMeta.noLine (u : UnitMeta) : UnitMeta := { u with line := 0 }
+
+/-- the same unit metadata, line numbers aside -/
+def unitsSim (a b : UnitMap) : Prop := a.map UnitMeta.noLine = b.map UnitMeta.noLine
+
+theorem get_sim {a b : UnitMap} (h : unitsSim a b) (t k : Bytes) :
+    (a.get t k).map UnitMeta.noLine = (b.get t k).map UnitMeta.noLine := by
+  unfold UnitMap.get
+  have key : ∀ l : UnitMap, (l.find? fun u => u.unit == t && u.key == k).map UnitMeta.noLine =
+      (l.map UnitMeta.noLine).find? (fun u => u.unit == t && u.key == k) := by
+    intro l
+    induction l with
+    | nil => rfl
+    | cons x xs ih =>
+      simp only [List.find?_cons, List.map_cons, UnitMeta.noLine]
+      split <;> simp_all [UnitMeta.noLine]
+  rw [key a, key b, h]
+
+theorem unitField_sim (fn : Bytes) (ln d : Nat) (unit tidy : Bytes) {ua ub : UnitMap}
+    (h : unitsSim ua ub) (f : Bytes) :
+    unitsSim (unitField fn ln unit tidy ua f).1 (unitField fn (ln + d) unit tidy ub f).1 ∧
+    (unitField fn (ln + d) unit tidy ub f).2 = (unitField fn ln unit tidy ua f).2.map (Rec.bump d) := by
+  unfold unitField
+  simp only
+  split
+  · exact ⟨h, by simp [Rec.bump]⟩
+  · have hg := get_sim h tidy (f.span fun c => !(c == 61)).1
+    cases ha : ua.get tidy (f.span fun c => !(c == 61)).1 with
+    | none =>
+      cases hb : ub.get tidy (f.span fun c => !(c == 61)).1 with
+      | none =>
+        simp only
+        refine ⟨?_, by simp [Rec.bump]⟩
+        unfold unitsSim UnitMap.insert at *
+        simp [h, UnitMeta.noLine]
+      | some v => rw [ha, hb] at hg; simp at hg
+    | some u =>
+      cases hb : ub.get tidy (f.span fun c => !(c == 61)).1 with
+      | none => rw [ha, hb] at hg; simp at hg
+      | some v =>
+        rw [ha, hb] at hg
+        have hv : u.value = v.value := by
+          have := congrArg (Option.map UnitMeta.value) hg
+          simpa [UnitMeta.noLine] using this
+        simp only [hv]
+        split
+        · exact ⟨h, rfl⟩
+        · exact ⟨h, by simp [Rec.bump]⟩
+
+theorem unitFields_sim (fn : Bytes) (ln d : Nat) (unit tidy : Bytes) (fs : List Bytes) :
+    ∀ {ua ub : UnitMap}, unitsSim ua ub →
+      unitsSim (unitFields fn ln unit tidy ua fs).1 (unitFields fn (ln + d) unit tidy ub fs).1 ∧
+      (unitFields fn (ln + d) unit tidy ub fs).2 = (unitFields fn ln unit tidy ua fs).2.map (Rec.bump d) := by
+  induction fs with
+  | nil => intro ua ub h; exact ⟨h, rfl⟩
+  | cons f fs ih =>
+    intro ua ub h
+    obtain ⟨h1, q1⟩ := unitField_sim fn ln d unit tidy h f
+    obtain ⟨h2, q2⟩ := ih h1
+    simp only [unitFields]
+    exact ⟨h2, by rw [q1, q2, List.map_append]⟩
+
+theorem parseUnitLine_sim (O : Oracles) (fn : Bytes) (ln d : Nat) {ua ub : UnitMap}
+    (h : unitsSim ua ub) (line : Bytes) :
+    unitsSim (parseUnitLine O fn ln ua line).1 (parseUnitLine O fn (ln + d) ub line).1 ∧
+    (parseUnitLine O fn (ln + d) ub line).2 = (parseUnitLine O fn ln ua line).2.map (Rec.bump d) := by
+  unfold parseUnitLine
+  split
+  · exact ⟨h, by simp [Rec.bump]⟩
+  · exact unitFields_sim _ _ _ _ _ _ h
+
+/-- Two reader states that differ only in the line counter (by `d`) and in the line numbers
+recorded inside the unit metadata. -/
+structure RSim (d : Nat) (a b : RState) : Prop where
+  store : a.store = b.store
+  fileName : a.fileName = b.fileName
+  line : b.line = a.line + d
+  units : unitsSim a.units b.units
+
+theorem scanLine_sim (O : Oracles) (d : Nat) {a b : RState} (h : RSim d a b) (l : Bytes) :
+    RSim d (scanLine O a l).1 (scanLine O b l).1 ∧
+    (scanLine O b l).2 = (scanLine O a l).2.map (Rec.bump d) := by
+  obtain ⟨hs, hf, hl, hu⟩ := h
+  have hl' : b.line + 1 = a.line + 1 + d := by omega
+  unfold scanLine
+  simp only
+  split
+  · split
+    · exact ⟨⟨hs, hf, hl', hu⟩, by simp [Rec.bump, hs, hf, hl']⟩
+    · exact ⟨⟨hs, hf, hl', hu⟩, rfl⟩
+    · exact ⟨⟨hs, hf, hl', hu⟩, by simp [Rec.bump, hf, hl']⟩
+  · split
+    · rename_i rest _
+      obtain ⟨h1, q1⟩ := parseUnitLine_sim O a.fileName (a.line + 1) d hu rest
+      simp only
+      rw [← hf, hl']
+      exact ⟨⟨hs, rfl, rfl, h1⟩, q1⟩
+    · split
+      · exact ⟨⟨by simp [hs], hf, hl', hu⟩, rfl⟩
+      · exact ⟨⟨hs, hf, hl', hu⟩, rfl⟩
+
+theorem readLines_sim (O : Oracles) (d : Nat) (ls : List Bytes) :
+    ∀ {a b : RState}, RSim d a b → readLines O b ls = (readLines O a ls).map (Rec.bump d) := by
+  induction ls with
+  | nil => intro a b _; rfl
+  | cons l ls ih =>
+    intro a b h
+    obtain ⟨h1, q1⟩ := scanLine_sim O d h l
+    simp only [readLines, List.map_append]
+    rw [q1, ih h1]
+
+theorem readLines_append (O : Oracles) (l1 l2 : List Bytes) :
+    ∀ st, readLines O st (l1 ++ l2) = readLines O st l1 ++ readLines O (finalState O st l1) l2 := by
+  induction l1 with
+  | nil => intro st; rfl
+  | cons l ls ih => intro st; simp only [List.cons_append, readLines, finalState, ih, List.append_assoc]
+
+/-- An ignored line advances the line counter and does nothing else. -/
+theorem scanLine_ignored (O : Oracles) (st : RState) (l : Bytes) (h : classify O l = .ignored) :
+    scanLine O st l = ({ st with line := st.line + 1 }, []) := by
+  unfold classify at h
+  unfold scanLine
+  simp only
+  split at h
+  · rename_i hp
+    simp only [hp, ↓reduceIte]
+    split at h
+    · rename_i hskip; rw [hskip]
+    · simp at h
+  · rename_i hp
+    simp only [hp]
+    rw [unit_guard]
+    split at h
+    · simp at h
+    · rename_i hu
+      have hu' : isUnitLine O.uc l = none := by
+        cases hx : isUnitLine O.uc l <;> simp_all
+      rw [hu']
+      split at h
+      · simp at h
+      · rename_i hk
+        have hk' : parseKeyValueLine O.uc l = none := by
+          cases hx : parseKeyValueLine O.uc l <;> simp_all
+        rw [hk']; simp
+
+end Fmt
+
+/-! ### The only fuel in the model is never exhausted -/
+namespace Fmt
+
+theorem skipSpaces_length (uc : UC) (x : Bytes) : ∀ k, (skipSpaces uc k x).length ≤ x.length := by
+  induction x with
+  | nil => intro k; simp [skipSpaces]
+  | cons c rest ih =>
+    intro k
+    cases k with
+    | succ k => simp only [skipSpaces, List.length_cons]; have := ih k; omega
+    | zero =>
+      unfold skipSpaces
+      split
+      · split
+        · have := ih 0; simp only [List.length_cons]; omega
+        · exact Nat.le_refl _
+      · simp only
+        split
+        · have := ih ((decodeRune (c :: rest)).2 - 1); simp only [List.length_cons]; omega
+        · exact Nat.le_refl _
+
+theorem takeField_length (uc : UC) (x : Bytes) :
+    ∀ k, (takeField uc k x).1.length + (takeField uc k x).2.length ≤ x.length := by
+  induction x with
+  | nil => intro k; simp [takeField]
+  | cons c rest ih =>
+    intro k
+    cases k with
+    | succ k => simp only [takeField, List.length_cons]; have := ih k; omega
+    | zero =>
+      unfold takeField
+      split
+      · split
+        · simp
+        · have := ih 0; simp only [List.length_cons]; omega
+      · simp only
+        split
+        · simp only [List.length_nil, List.length_drop, List.length_cons]; omega
+        · have := ih ((decodeRune (c :: rest)).2 - 1); simp only [List.length_cons]; omega
+
+theorem splitField_length (uc : UC) (x : Bytes) :
+    (splitField uc x).1.length + (splitField uc x).2.length ≤ x.length := by
+  unfold splitField
+  have h1 := takeField_length uc x 0
+  have h2 := skipSpaces_length uc (takeField uc 0 x).2 0
+  simp only; omega
+
+/-- **No fuel is ever exhausted**: `fields` gives the same answer with any fuel beyond the
+length of its input, so the bound `length + 1` it uses is not a restriction. -/
+theorem fieldsN_fuel (uc : UC) : ∀ (n m : Nat) (x : Bytes), x.length < n → x.length < m →
+    fieldsN uc n x = fieldsN uc m x := by
+  intro n
+  induction n with
+  | zero => intro m x h; omega
+  | succ n ih =>
+    intro m x hn hm
+    cases m with
+    | zero => omega
+    | succ m =>
+      simp only [fieldsN]
+      have hl := splitField_length uc x
+      cases hf : (splitField uc x).1 with
+      | nil => simp
+      | cons c f =>
+        simp only [List.isEmpty_cons, Bool.false_eq_true, ↓reduceIte]
+        rw [hf] at hl
+        simp only [List.length_cons] at hl
+        rw [ih m (splitField uc x).2 (by omega) (by omega)]
+
+theorem fields_fuel (uc : UC) (x : Bytes) (n : Nat) (h : x.length < n) :
+    fieldsN uc n x = fields uc x :=
+  fieldsN_fuel uc n (x.length + 1) x h (Nat.lt_succ_self _)
+
+end Fmt
